@@ -6,7 +6,7 @@ import os
 import numpy as np
 
 from .. import lib, pfile
-from . import c01, c15
+from . import c01, c10, c15
 
 ID = 'C05'
 LEAN_MODULE = 'PncProofs.C05'
@@ -20,7 +20,7 @@ RULE = ('kind hist: histories of 2-9 events (open one of 3 netCDF files, close, 
         'with gc) run in a freshly forked process; after EVERY event every object created so far is read and '
         'compared with the Lean handle-table model; kind pure: every operation/query of the C01 stream plus '
         'getTimes, val2idx (all methods), time2idx, date2num, repr, save and the legacy helpers slice_dim / '
-        'getvarpnc / pncrename on random files: deep snapshot of the inputs before vs after, numpy.shares_memory '
+        'getvarpnc / pncrename on random files, and every IOAPI operation of the C10 stream on IOAPI files: deep snapshot of the inputs before vs after, numpy.shares_memory '
         'between every output and input variable, then writes into every output variable and a second snapshot '
         'comparison; non-trivial = a history that closes or drops an object while another is open / an operation '
         'that returns at least one variable')
@@ -67,11 +67,20 @@ def _pure(rng):
     return dict(kind='pure', spec=spec, op=op)
 
 
+def _iopure(rng):
+    src = c10._src(rng)
+    src['kind'] = rng.choice(['arrays', 'arrays_bnd', 'arrays_extra'])
+    rec = c10._recipe(rng)
+    if rec[0] == 'eval':
+        rec[3] = 1          # never inplace: an inplace eval is allowed to modify its receiver
+    return dict(kind='iopure', src=src, recipe=rec)
+
+
 def gen(rng, tier):
     n = 200 if tier == 'quick' else 5000
     out = []
     for i in range(n):
-        out.append(_hist(rng) if i % 3 == 0 else _pure(rng))
+        out.append(_hist(rng) if i % 3 == 0 else (_iopure(rng) if i % 3 == 1 and i % 2 == 0 else _pure(rng)))
     # the history that used to break another file (double close through the finaliser)
     out.append(dict(kind='hist', evs=[['o', 0], ['c', 0], ['o', 1], ['d', 0]]))
     out.append(dict(kind='hist', evs=[['o', 0], ['o', 1], ['c', 0], ['c', 0], ['o', 2], ['c', 0], ['d', 0]]))
@@ -220,6 +229,8 @@ def _query(f, q, spec):
 def impl(case):
     if case['kind'] == 'hist':
         return dict(flags=c15._in_child(_run_hist, case['evs']))
+    if case['kind'] == 'iopure':
+        return _impl_iopure(case)
     spec = case['spec']
     f = pfile.build(spec)
     f.setCoords([v['name'] for v in spec['vars'] if v['dims'] == [v['name']]])
@@ -287,6 +298,44 @@ def impl(case):
     return res
 
 
+def _impl_iopure(case):
+    with lib.pnc_warnings():
+        f, _ = c10.build(case['src'])
+        op = c10.resolve(case['recipe'], f)
+        before = _snap(f)
+        res = dict(op=op)
+        try:
+            with np.errstate(all='ignore'):
+                g = c10.apply_op(f, op)
+        except Exception as e:
+            res['err'] = type(e).__name__
+            g = None
+        res['changed'] = _diffsnap(before, _snap(f))
+        res['alias'] = []
+        if g is not None and g is not f:
+            res['nvars'] = len(g.variables)
+            for k in g.variables:
+                for k2 in f.variables:
+                    try:
+                        if np.shares_memory(np.ma.getdata(g.variables[k][...]), np.ma.getdata(f.variables[k2][...])):
+                            res['alias'].append([k, k2])
+                    except Exception:
+                        pass
+            for k in g.variables:
+                v = g.variables[k]
+                try:
+                    v[...] = np.zeros(v.shape, dtype=v.dtype) + 77
+                except Exception:
+                    pass
+            for a in ('NVARS', 'SDATE', 'XORIG', 'NLAYS'):
+                try:
+                    setattr(g, a, getattr(g, a) + 1)
+                except Exception:
+                    pass
+            res['changed_after_write'] = _diffsnap(before, _snap(f))
+        return res
+
+
 def to_line(case, res):
     if case['kind'] == 'hist':
         return 'c05h hist %s' % ','.join('%s:%d' % (k, a) for k, a in case['evs'])
@@ -320,12 +369,13 @@ def oracle(case, res):
                 if j not in closed and flags[j] != '1':
                     return 'after event %d (%s) the still-open object %d is no longer readable (%s)' % (i, [k, a], j, flags)
         return None
+    op = case.get('op') or res.get('op')
     if res.get('changed'):
-        return 'operation %s modified its input: %s' % (case['op'], res['changed'])
+        return 'operation %s modified its input: %s' % (op, res['changed'])
     if res.get('alias'):
-        return 'aliasing: result of %s shares memory with the input: %s' % (case['op'], res['alias'][:3])
+        return 'aliasing: result of %s shares memory with the input: %s' % (op, res['alias'][:3])
     if res.get('changed_after_write'):
-        return 'writing into the result of %s changed the input: %s' % (case['op'], res['changed_after_write'])
+        return 'writing into the result of %s changed the input: %s' % (op, res['changed_after_write'])
     return None
 
 
@@ -358,6 +408,9 @@ def distribution(recs):
     d = {}
     for r in recs:
         c = r['case']
-        k = c['kind'] if c['kind'] == 'hist' else ('op:' + (c['op'][1] if c['op'][0] == 'query' else c['op'][0]))
+        if c['kind'] == 'iopure':
+            k = 'ioapi:' + c['recipe'][0]
+        else:
+            k = c['kind'] if c['kind'] == 'hist' else ('op:' + (c['op'][1] if c['op'][0] == 'query' else c['op'][0]))
         d[k] = d.get(k, 0) + 1
     return d
